@@ -63,7 +63,30 @@ def handle (j : Json) : Except String Json := do
     pure (Json.mkObj [("values", jFloats vals), ("sample_size", jNat (sampleSize ids))])
   | "audit" =>
     let e ← parseExpr (← j.getObjVal? "e")
-    pure (Json.mkObj [("outside", jStrs (checkPanelTrajectory e)), ("ntraj", jNat (countTraj e))])
+    pure (Json.mkObj [("outside", jStrs (checkPanelTrajectory e)), ("ntraj", jNat (countTraj e)),
+      ("draws_outside", jStrs (checkDraws e)), ("audit_errors", jNat (auditErrors e)),
+      ("accepts", jBool (initAccepts e)), ("has_traj", jBool (hasTraj e))])
+  | "history" =>
+    -- tables assigned to database.data one after the other, one evaluation of
+    -- outer(PanelLikelihoodTrajectory(P)) after each; the database starts with the map of `first`
+    let outer ← outerFn (← getStr j "outer")
+    let readTable (t : Json) : Except String (List (Int × Float)) := do
+      let ids ← intList (← t.getObjVal? "ids")
+      let p ← floatList (← t.getObjVal? "p")
+      if ids.length != p.length then throw "bad-op"
+      pure (ids.zip p)
+    let first ← readTable (← j.getObjVal? "first")
+    let tables ← (← getArr j "tables").toList.mapM readTable
+    let st0 : DbState Float := DbState.rebuild ⟨first, []⟩
+    let steps := DbState.history outer (fun (x : Float) => x) 0.0 st0 tables
+    pure (Json.mkObj [("steps", jArr (steps.map fun (m, vals) =>
+      Json.mkObj [("map", jArr (m.map entryJson)), ("ids", jInts (vals.map (·.1))),
+        ("values", jFloats (vals.map (·.2)))]))])
+  | "scaled" =>
+    -- quantities returned with scaled=True for a sorted id column
+    let ids ← intList (← j.getObjVal? "ids")
+    let v ← floatList (← j.getObjVal? "v")
+    pure (Json.mkObj [("values", jFloats (v.map (scaledBy ids))), ("sample_size", jNat (sampleSize ids))])
   | _ => throw "bad-op"
 
 def main : IO Unit := Drv.run handle
